@@ -10,6 +10,7 @@ import Driver.Steps
 import Cirbo.Model.Miter
 import Cirbo.Model.Passes
 import Driver.Gens
+import Driver.SynthDrv
 /-! `cirbo_model`: one JSON request per input line, one JSON response per output line. -/
 open Lean Cirbo Driver
 
@@ -246,6 +247,8 @@ def handle (j : Json) : Except String Json := do
       pure (ofExcept jCircuit (cleanup c heavy))
     | _ => throw "bad mode"
   | "gen" => GenDrv.genOp j
+  | "synth_encode" => SynthDrv.handle op j
+  | "synth_decode" => SynthDrv.handle op j
   | "optable_issues" => pure (ok (jStrs opTableIssues))
   | "check_wf" => do
     let c ← getCircuit j
